@@ -31,12 +31,13 @@ X = "i"                                # the loop that is analysed
 INNER = "j"
 SC_RO = ["n", "m"]                     # scalars the bodies only read
 SC_W = ["k", "s", "t"]                 # scalars the bodies may write
-DNAMES = ["d_i", "d1_i", "d2_i"]       # names colliding with the analysis' internal d_<var> symbols
+DNAMES = ["d_i", "d1_i", "d2_i", "d_j", "d_ji", "d1_ji", "tmp"]   # names like the ones the analysis invents (d_<var>, d<k>_<var>)
+X2 = "ji"                              # second loop-variable name used by targeted shapes
 ARR1 = ["a", "b", "c"]
 IDX = "idx"
 ARR2 = ["d", "e"]
 LB, UB = -40, 40
-DECLS = ([(v, "integer", []) for v in [X, INNER] + SC_RO + SC_W + DNAMES] +
+DECLS = ([(v, "integer", []) for v in [X, INNER, X2] + SC_RO + SC_W + DNAMES] +
          [(a, "integer", [(LB, UB)]) for a in ARR1 + [IDX]] +
          [(a, "integer", [(LB, UB), (LB, UB)]) for a in ARR2])
 
@@ -96,7 +97,10 @@ class LoopGen:
             (1, lambda: B("Add", i, ("idx", IDX, [i]))),
             (1, lambda: ("idx", IDX, [addc(i, 1)])),
             (1, lambda: ("idx", IDX, [L(3)])),
-            (2, lambda: B("Add", i, V("d_i"))),
+            (3, lambda: B("Add", i, V("d_i"))),
+            (1, lambda: B("Sub", i, V("d_i"))),
+            (1, lambda: B("Add", i, V(r.choice(["d1_i", "tmp", "d_j"])))),
+            (1, lambda: B("Add", addc(i, r.choice([1, -1])), V("d_i"))),
             (2, lambda: B("Div", n, L(2))),
             (1, lambda: B("Div", addc(n, r.choice([1, 2])), L(2))),
             (1, lambda: ("intr", "IAbs", [i])),
@@ -131,6 +135,9 @@ class LoopGen:
         nd = 2 if a in ARR2 else 1
         if like is not None and len(like) == nd and r.random() < 0.8:
             ix = [e if r.random() < 0.75 else addc(e, r.choice([1, -1])) for e in like]
+            if r.random() < 0.12:                       # a(i) = a(i + d_i): offset known only at run time
+                k = r.randrange(nd)
+                ix[k] = B("Add", ix[k], V(r.choice(["d_i", "d_i", "d_i", "d1_i", "tmp"])))
             return ("idx", a, ix)
         simple = 0.7 if lhs else 0.4
         if nd == 2 and r.random() < 0.6:
@@ -195,7 +202,8 @@ class LoopGen:
     def loop(self):
         r = self.r
         lo, hi, st = r.choice([(L(1), L(4), L(1)), (L(0), L(3), L(1)), (L(-2), L(2), L(1)), (L(4), L(1), L(-1)),
-                               (L(1), L(6), L(2)), (L(1), V("n"), L(1)), (L(2), L(5), L(1))])
+                               (L(1), L(6), L(2)), (L(1), V("n"), L(1)), (L(2), L(5), L(1)),
+                               (L(1), B("Add", L(3), V("d_i")), L(1))])
         arrs = ARR1 + ARR2
         r.shuffle(arrs)
         nw = r.choice([1, 1, 2, 2, 3])
@@ -223,6 +231,15 @@ TARGETED = [
     ("idxarr-read", "do i = 1, 4\n a(i) = b(idx(i))\nend do"),
     ("dname1", "do i = 1, 4\n a(i + d_i) = b(i)\nend do"),
     ("dname2", "do i = 1, 4\n a(i + d_i + d1_i) = b(i)\nend do"),
+    ("dname-offset-read", "do i = 1, 4\n a(i) = a(i + d_i) + 1\nend do"),
+    ("dname-offset-read2", "do ji = 1, 4\n b(ji) = b(ji + d_ji)\nend do"),
+    ("dname-offset-write", "do i = 1, 4\n a(i + d_i) = a(i)\nend do"),
+    ("dname-offset-minus", "do i = 1, 4\n a(i) = a(i - d_i)\nend do"),
+    ("dname-offset-both", "do i = 1, 4\n a(i + d_i) = a(i + d_i) + b(i + d1_i)\nend do"),
+    ("dname-offset-2d", "do i = 1, 3\n do j = 1, 3\n  d(j, i) = d(j + d_j, i + d_i)\n end do\nend do"),
+    ("dname-offset-tmp", "do i = 1, 4\n a(i) = a(i + tmp)\nend do"),
+    ("dname-offset-d1", "do ji = 1, 4\n c(ji + d_ji) = c(ji + d_ji + d1_ji)\nend do"),
+    ("dname-bound", "do i = 1, 3 + d_i\n a(i) = a(i + d_i)\nend do"),
     ("dname-skip", "do i = 1, 4\n a(i + d1_i) = b(i + d2_i)\nend do"),
     ("cond-scalar", "do i = 1, 4\n if (b(i) > 0) then\n  t = b(i)\n end if\n c(i) = t\nend do"),
     ("cond-scalar-ww", "do i = 1, 4\n if (b(i) > 0) then\n  t = 1\n end if\n if (b(i) < 0) then\n  t = 2\n end if\nend do"),
@@ -442,6 +459,8 @@ def stores(rng, loop, count):
         vals = {}
         for v in SC_RO + SC_W + DNAMES:
             vals[(v, ())] = rng.randint(-2, 3)
+        for k, v in enumerate(DNAMES):
+            vals[(v, ())] = 0 if t % 7 == 6 else [1, -1, 2, 1, -2, 3, 1][(t + k) % 7]
         vals[("n", ())] = ns[t % len(ns)] if loop[3] != V("n") else [4, 3, 2, 4, 3, 2][t % 6]
         for a in ARR1 + [IDX]:
             for i in range(-12, 13):
@@ -681,13 +700,18 @@ def run(ctx):
 
     # 1. translator + proofs
     tr = load_translator()
+    translator_error = None
     try:
         incr = tr.generate(str(core.REPO))
     except Exception as e:                             # pylint: disable=broad-except
-        ctx.violation({"property": "C08", "broken": "translator props/C08/translate.py no longer recognises the "
-                       "fresh-name loop of _get_dependency_distance", "error": "%s: %s" % (type(e).__name__, e)},
-                      no_input=True)
-        incr = tr.generate("/repo") if str(core.REPO) != "/repo" else False
+        # fail-closed: the obligation over the source can no longer be regenerated.  Keep the last GenSrc.v so that
+        # the model still runs, go on with the search for a concrete failing input, and report at the end.
+        translator_error = "%s: %s" % (type(e).__name__, e)
+        gen = core.COQ / "C08" / "GenSrc.v"
+        if not gen.exists():
+            core.write_if_changed(gen, "Definition src_idx_incremented : bool := true.\n")
+        incr = ":= true" in gen.read_text()
+        ctx.log("translator failed closed (%s); continuing the search with the previous GenSrc.v" % translator_error)
     ctx.notes["src_idx_incremented"] = incr
     ok, rep = ctx.prove()
     ctx.log("proof ok=%s discharged=%d/%d idx_incremented=%s" % (ok, ctx.cov["discharged"], ctx.cov["obligations"], incr))
@@ -827,6 +851,11 @@ def run(ctx):
             else:
                 ctx.violation(body, no_input=True)
     ctx.notes["soft_mismatches_impl_stricter_or_code_only"] = soft
+    if translator_error and not any(not ni for _, ni in ctx.violations):
+        ctx.violation({"property": "C08", "broken": "translator props/C08/translate.py no longer recognises the "
+                       "fresh-name loop of _get_dependency_distance (obligation C08_analysis_answers_src cannot be "
+                       "regenerated from the source)", "error": translator_error}, no_input=True)
+    ctx.notes["translator_error"] = translator_error
     if not ok and not ctx.violations:
         ctx.violation({"property": "C08", "broken": "proof obligations of Properties/C08.v", "proof_report": rep},
                       no_input=True)
